@@ -72,7 +72,8 @@ type c10ApkName struct {
 
 var c10ApkNames = []c10ApkName{
 	{"", "Foo <foo@example.com>", "foo@example.com.rsa.pub"},
-	{"", "", "verif@example.com.rsa.pub"}, // maintainer of PkgSpec.Info
+	{"", "Jane Doe <Jane.Doe@Example.COM>", "Jane.Doe@Example.COM.rsa.pub"}, // the address as written: apk looks the key up by this very name
+	{"", "", "verif@example.com.rsa.pub"},                                   // maintainer of PkgSpec.Info
 	{"origin", "", "origin.rsa.pub"},
 	{"x.rsa.pub", "", "x.rsa.pub"},
 }
@@ -523,7 +524,7 @@ func (x *c10env) apkVerify(famName string, dec *Decoded, sig []byte, pub *rsa.Pu
 func (x *c10env) apkFamily() {
 	c := x.c
 	const famName = "apk"
-	fam := c.Rep.Family(famName, "apk: RSA key {PKCS#1 unprotected, PKCS#1 protected with passphrase, PKCS#8 unprotected, both unprotected ones with a passphrase configured that they do not need} x key name {unset + maintainer Foo <foo@example.com>, unset + default maintainer, origin, x.rsa.pub} (all 12 pairs) over rotating payload specs; the package must have 3 gzip segments, the first holding exactly .SIGN.RSA.<name>.rsa.pub, whose body must verify (PKCS#1 v1.5, SHA-1) with the matching public key over the second segment's compressed bytes as shipped and fail over a one-bit perturbation; non-trivial = package built and decoded")
+	fam := c.Rep.Family(famName, "apk: RSA key {PKCS#1 unprotected, PKCS#1 protected with passphrase, PKCS#8 unprotected, both unprotected ones with a passphrase configured that they do not need} x key name {unset + maintainer Foo <foo@example.com>, unset + maintainer with upper-case letters in the address, unset + default maintainer, origin, x.rsa.pub} (all pairs) over rotating payload specs; the package must have 3 gzip segments, the first holding exactly .SIGN.RSA.<name>.rsa.pub, whose body must verify (PKCS#1 v1.5, SHA-1) with the matching public key over the second segment's compressed bytes as shipped and fail over a one-bit perturbation; non-trivial = package built and decoded")
 	n := len(c10RSAKeys) * len(c10ApkNames)
 	x.sweep(n, c.N(3, 4), func(base *PkgSpec, k int) {
 		key, nm := c10RSAKeys[k%len(c10RSAKeys)], c10ApkNames[k/len(c10RSAKeys)]
@@ -577,7 +578,7 @@ func (cp *c10capture) signFn(mk func([]byte) ([]byte, error)) func(io.Reader) ([
 func (x *c10env) callbacksFamily(r *rng.R) {
 	c := x.c
 	const famName = "callbacks"
-	fam := c.Rep.Family(famName, "SignFn instead of a key file, for deb/debsign, deb/dpkg-sig, rpm, apk x answer {real signature made with go-crypto / crypto/rsa directly from the unprotected test keys, fixed random blob of odd length}: every byte string handed to the callback is recorded and compared with the regions of the final package (deb: debian-binary++control++data bodies, or the manifest whose digests match them; rpm: exactly two calls {header, header++payload}; apk: the 20-byte SHA-1 of the control segment as shipped); the callback's answer must be stored verbatim (deb member body, rpm tag 268/1002, apk .SIGN entry); real answers are also verified from the package; non-trivial = package built and decoded")
+	fam := c.Rep.Family(famName, "SignFn instead of a key file – and, in the second half of the cases, next to a configured key file – for deb/debsign, deb/dpkg-sig, rpm, apk x answer {real signature made with go-crypto / crypto/rsa directly from the unprotected test keys, fixed random blob of odd length}: every byte string handed to the callback is recorded and compared with the regions of the final package (deb: debian-binary++control++data bodies, or the manifest whose digests match them; rpm: exactly two calls {header, header++payload}; apk: the 20-byte SHA-1 of the control segment as shipped); the callback's answer must be stored verbatim (deb member body, rpm tag 268/1002, apk .SIGN entry); real answers are also verified from the package; non-trivial = package built and decoded")
 	kinds := []string{"deb/debsign", "deb/dpkg-sig", "rpm", "apk"}
 	differ := func(format string, in map[string]any, what string) {
 		c.Rep.Find(report.Finding{Property: "C10", Family: famName, Shape: format + ":callback-bytes-differ-from-signed-region", What: what, Input: in})
@@ -585,7 +586,11 @@ func (x *c10env) callbacksFamily(r *rng.R) {
 	notVerbatim := func(format string, in map[string]any, what string) {
 		c.Rep.Find(report.Finding{Property: "C10", Family: famName, Shape: format + ":callback-signature-not-stored-verbatim", What: what, Input: in})
 	}
-	x.sweep(len(kinds)*2, c.N(8, 8), func(base *PkgSpec, k int) {
+	x.sweep(len(kinds)*4, c.N(16, 16), func(base *PkgSpec, k int) {
+		// the second half: a key file is configured as well (a configuration file that names the key, a caller that
+		// plugs in its own signer) – the callback is still the signer
+		withKey := k >= len(kinds)*2
+		k = k % (len(kinds) * 2)
 		kind, real := kinds[k%len(kinds)], k/len(kinds) == 0
 		blob := make([]byte, 33+2*r.Intn(40))
 		for i := range blob {
@@ -598,6 +603,10 @@ func (x *c10env) callbacksFamily(r *rng.R) {
 			answer = "real"
 		}
 		desc := map[string]any{"sign_fn": kind, "answer": answer}
+		if withKey {
+			desc["key_file_also_configured"] = true
+			answer += "+key-file"
+		}
 		switch kind {
 		case "deb/debsign", "deb/dpkg-sig":
 			method := strings.TrimPrefix(kind, "deb/")
@@ -628,6 +637,9 @@ func (x *c10env) callbacksFamily(r *rng.R) {
 				info.Deb.Signature.Method = method
 				info.Deb.Signature.Type = typ
 				info.Deb.Signature.SignFn = cp.signFn(mk)
+				if withKey {
+					info.Deb.Signature.KeyFile = x.key("privkey_unprotected.asc")
+				}
 			})
 			dec, in, ok := x.build(fam, famName, "deb", "deb:"+method+":", s, kind+"|"+answer)
 			if !ok {
@@ -674,7 +686,12 @@ func (x *c10env) callbacksFamily(r *rng.R) {
 					return w.Bytes(), err
 				}
 			}
-			s := c10derive(base, desc, func(info *nfpm.Info) { info.RPM.Signature.SignFn = cp.signFn(mk) })
+			s := c10derive(base, desc, func(info *nfpm.Info) {
+				info.RPM.Signature.SignFn = cp.signFn(mk)
+				if withKey {
+					info.RPM.Signature.KeyFile = x.key("privkey_unprotected.asc")
+				}
+			})
 			dec, in, ok := x.build(fam, famName, "rpm", "rpm:", s, kind+"|"+answer)
 			if !ok {
 				return
@@ -711,6 +728,9 @@ func (x *c10env) callbacksFamily(r *rng.R) {
 				}
 				info.APK.Signature.KeyName = nm.KeyName
 				info.APK.Signature.SignFn = cp.signFn(mk)
+				if withKey {
+					info.APK.Signature.KeyFile = x.key("rsa_unprotected.priv")
+				}
 			})
 			dec, in, ok := x.build(fam, famName, "apk", "apk:", s, kind+"|"+answer)
 			if !ok {
